@@ -48,6 +48,8 @@ def restrict(scn, cid):
     return Scn(scn.with_xq, scn.with_class, scn.svcs, scn.rules, scn.timeout, items, "client %d alone (its own events of the history above)" % cid)
 
 def run(chk):
+    _impl0, _ = build_impl()
+    _rt = start_realtime(_impl0) if _impl0 is not None else None
     env = setup(chk)
     if env is None: return
     drv, impl = env
@@ -255,4 +257,5 @@ def run(chk):
         distinct.add(hash(tuple(str(x[1]) for x in scn.items)))
     chk.cov["distinct_nontrivial"] = len(distinct)
     chk.cov["samples"] = [inter[0][1].describe().split("\n")[:30]] if inter else []
+    if _rt is not None: finish_realtime(chk, _rt, 'interference: ')
     chk.cov["rule"] = "k = 2..4 clients on distinct ids, each with its own generated script (data, passwords, replies addressed to it, timeouts, disconnects); %d random order-preserving interleavings per group on the real daemon; the per-client projection (serial erased) must equal the client's solo run; distinct = distinct interleavings" % nshuf
